@@ -202,7 +202,9 @@ def build_coq(prop, clean=False):
         res["discharged"] += len(re.findall(r"\b(Qed|Defined)\s*\.", src))
     with Lock("coqmake"):
         if clean:
-            for f in cone:
+            # only this property's own files: shared files (Base/, S_*, other properties' models in the
+            # cone) may be in use by a concurrently running check; make rebuilds them when out of date
+            for f in [f for f in cone if os.path.basename(f).startswith(prop)]:
                 for ext in ("o", "ok", "os"):
                     try:
                         os.remove(os.path.join(COQ, f + ext))
